@@ -58,7 +58,7 @@ func main() {
 	}
 	scale := 1
 	if r.Thorough() {
-		scale = 12
+		scale = 60
 	}
 	cl := &caseList{dropped: map[string]int{}}
 	if r.Thorough() {
@@ -86,6 +86,11 @@ func main() {
 		budget = 600
 	}
 	const chunk = 64
+	kindHangs := map[string]int{}
+	kindCap := 40
+	if r.Thorough() {
+		kindCap = 200
+	}
 	for k, n := range cl.dropped {
 		r.Stat("dropped."+k, int64(n))
 	}
@@ -98,6 +103,11 @@ func main() {
 		var idx []int
 		var lines []string
 		for i := lo; i < hi; i++ {
+			kind := cl.lines[i][:strings.IndexByte(cl.lines[i], ' ')]
+			if kindHangs[kind] >= kindCap { // a regression that makes a whole kind spin: already a violation
+				r.Stat("dropped.hangcap."+kind, 1)
+				continue
+			}
 			if cl.hang[i] && hangs >= budget {
 				r.Stat("dropped."+cl.class[i], 1)
 				continue
@@ -114,6 +124,9 @@ func main() {
 					r.Viol("dns-processdns-"+obs[j], "ProcessDNS "+obs[j]+" on a frame accepted by Parse", cl.lines[i])
 				}
 				continue
+			}
+			if obs[j] == "fuel" {
+				kindHangs[f[0]]++
 			}
 			r.Case(f[0], f[1:], obs[j])
 			r.Stat("class."+cl.class[i], 1)
